@@ -268,11 +268,7 @@ func handleUIDStore(deps ServerDeps, conn net.Conn, tag string, parts []string, 
 		}
 
 		// Update flags in database (only if message wasn't moved)
-		_, err = targetDB.Exec(`
-			UPDATE message_mailbox
-			SET flags = ?
-			WHERE mailbox_id = ? AND uid = ?
-		`, updatedFlags, state.SelectedMailboxID, uid)
+		updatedFlags, err = message.ApplyFlagChange(targetDB, state.SelectedMailboxID, int64(uid), currentFlags, newFlags, dataItem)
 
 		if err != nil {
 			deps.SendResponse(conn, fmt.Sprintf("%s NO UID STORE failed: %v", tag, err))
